@@ -189,6 +189,14 @@ class FnView:
     def all_err_nodes(self):
         """Nodes that only error exits pass: err successors of `?`/match, and
         statements that build `Err(..)` directly into the return place."""
+        cached = self.__dict__.get("_all_err_nodes")
+        if cached is not None:
+            return list(cached)
+        out = self._all_err_nodes_uncached()
+        self.__dict__["_all_err_nodes"] = tuple(out)
+        return out
+
+    def _all_err_nodes_uncached(self):
         out = []
         for bb in self.calls:
             out += self.err_nodes(bb)
@@ -209,6 +217,49 @@ class FnView:
                 continue
             for i, st in enumerate(blk["stmts"]):
                 if st["s"] == "assign" and st["place"]["local"] == 0 and not st["place"]["proj"] and st["rv"]["r"] == "aggregate" \
+                        and st["rv"].get("variant") == "Err" and "Result" in st["rv"].get("adt", ""):
+                    out.append(("s", bb, i))
+        # `Err(e)` built into a temporary whose only destination is the return place (the Err arm of a lowered
+        # `.map(..)` / `.map_err(..)` on the function's last expression, an inlined helper's result)
+        # one pass: for every local, where it is used and whether each use is a plain move into another local
+        moved_to = {}       # local -> set of destination locals of `dest = move local`
+        other_use = set()   # locals with any other use
+        for blk in self.fn.blocks:
+            if blk["cleanup"]:
+                continue
+            for st in blk["stmts"]:
+                if st["s"] != "assign":
+                    continue
+                rv = st["rv"]
+                plain = rv["r"] == "use" and not st["place"]["proj"] and isinstance(rv.get("op"), dict) and rv["op"].get("k") in ("copy", "move") and not rv["op"]["place"]["proj"]
+                if plain:
+                    moved_to.setdefault(rv["op"]["place"]["local"], set()).add(st["place"]["local"])
+                    continue
+                for k_ in ("op", "a", "b"):
+                    o_ = rv.get(k_)
+                    if isinstance(o_, dict) and o_.get("k") in ("copy", "move"):
+                        other_use.add(o_["place"]["local"])
+                for o_ in (rv.get("ops", []) if isinstance(rv.get("ops"), list) else []):
+                    if o_.get("k") in ("copy", "move"):
+                        other_use.add(o_["place"]["local"])
+                if isinstance(rv.get("place"), dict):
+                    other_use.add(rv["place"]["local"])
+            t_ = blk["term"]
+            for a_ in t_.get("args", []):
+                if a_.get("k") in ("copy", "move"):
+                    other_use.add(a_["place"]["local"])
+            if t_["t"] == "switch" and t_["discr"].get("k") in ("copy", "move"):
+                other_use.add(t_["discr"]["place"]["local"])
+        ret_only = {0}
+        for _ in range(4):
+            for l_, dests in moved_to.items():
+                if l_ not in ret_only and l_ not in other_use and dests <= ret_only:
+                    ret_only.add(l_)
+        for bb, blk in enumerate(self.fn.blocks):
+            if blk["cleanup"]:
+                continue
+            for i, st in enumerate(blk["stmts"]):
+                if st["s"] == "assign" and st["place"]["local"] in ret_only and st["place"]["local"] != 0 and not st["place"]["proj"] and st["rv"]["r"] == "aggregate" \
                         and st["rv"].get("variant") == "Err" and "Result" in st["rv"].get("adt", ""):
                     out.append(("s", bb, i))
         for tag in self.fn.d.get("inlined_err", []):
